@@ -379,7 +379,52 @@ def empty_exterior_worker(part, zi):
     part.nstates(1)
 
 
+def argument_history_worker(part, _):
+    """
+    the SAME array object handed over twice with its contents changed in between (a read-only view of a buffer the caller updates in
+    place - a trajectory frame, a memory map, shared memory): the second answer is for the coordinates as they are then; also for the
+    same writable array edited in place, and for the atom positions the object was built from
+    """
+    from chmpy.interpolate.density import PromoleculeDensity, StockholderWeight
+
+    zs = np.array([8, 1, 1])
+    sites = np.array([[0.0, 0.0, 0.1173], [0.0, 0.7572, -0.4692], [0.0, -0.7572, -0.4692]])
+    ez, ext = np.array([6, 8]), np.array([[2.9, 0.2, 0.1], [3.9, 0.9, 0.3]])
+    d = PromoleculeDensity((zs, sites))
+    sw = StockholderWeight.from_arrays(zs, sites, ez, ext)
+    for dtype in (np.float64, np.float32):
+        for readonly in (True, False):
+            base = eval_points(np.vstack([sites, ext])).astype(dtype)
+            arr = base.view()
+            if readonly:
+                arr.setflags(write=False)
+            case = {"kind": "arghist"}
+            part.ev()
+            for step, shift in enumerate((0.0, 0.37, -0.21)):
+                base += dtype(shift)
+                part.tr(2)
+                p64 = np.asarray(base, dtype=np.float32).astype(np.float64)
+                want, alt = interp.promolecule_rho(zs, sites.astype(np.float32).astype(np.float64), p64)
+                keep = np.min(np.linalg.norm(p64[:, None, :] - np.vstack([sites, ext])[None, :, :], axis=2), axis=1) >= 0.3
+                got = np.asarray(d.rho(arr), dtype=np.float64)
+                if relerr(got[keep], want[keep], alt[keep]) > REL:
+                    part.fail("argument-history:rho", "rho of the same %s %s array object after its contents were changed in place (step %d) is not the density at the current coordinates"
+                              % ("read-only" if readonly else "writable", np.dtype(dtype).name, step), case)
+                    break
+                wa, _ = interp.promolecule_rho(ez, ext.astype(np.float32).astype(np.float64), p64)
+                w = np.asarray(sw.weights(arr), dtype=np.float64)
+                if np.abs(w[keep] - want[keep] / (want[keep] + wa[keep])).max() > 2e-4:
+                    part.fail("argument-history:weights", "weights of the same %s %s array object after its contents were changed in place (step %d) are not the weights at the current coordinates"
+                              % ("read-only" if readonly else "writable", np.dtype(dtype).name, step), case)
+                    break
+            part.outcome(("arghist", readonly, np.dtype(dtype).name))
+    part.nstates(4)
+
+
 def worker(part, job, seed):
+    if job[0] == "arghist":
+        argument_history_worker(part, None)
+        return
     if job[0] == "empty-exterior":
         empty_exterior_worker(part, job[1])
         return
@@ -434,6 +479,7 @@ def run(ctx):
         for dists in ((3.0, 13.0), (10.5,), (10.7,), (25.0,), (3.0, 8.0, 10.6, 15.0), (12.0, 12.5, 30.0)):
             far.append(("far", (zi, ze, dists)))
     jobs += far
+    jobs.append(("arghist", None))
     jobs += [("empty-exterior", zi) for zi in ((8, 1, 1), (6,), (92, 17))]
     jobs += [("cluster", n) for n in ((255, 256, 257, 1000, 4095, 4096, 4097, 8193) if not ctx.thorough else (255, 256, 257, 1000, 4095, 4096, 4097, 8193, 16385, 32769, 65537))]
     bs = BATCH_SIZES if ctx.thorough else tuple(n for n in BATCH_SIZES if n <= 70001)
@@ -458,6 +504,8 @@ def replay(ctx, case):
         config_worker(ctx, [(0, (tuple(case["sites"]), tuple(case["zs"])))], case["seed"], 1)
     elif case["kind"] == "empty-exterior":
         empty_exterior_worker(ctx, tuple(case["zi"]))
+    elif case["kind"] == "arghist":
+        argument_history_worker(ctx, None)
     elif case["kind"] == "cluster":
         cluster_worker(ctx, case["natoms"])
     elif case["kind"] == "far":
